@@ -109,6 +109,18 @@ def hash_(case, ctx):
     ol = ctypes.c_size_t(0)
     r = l.digest(d, Buf.of(data), n, out, ctypes.byref(ol))
     ctx.check(r == 1 and ol.value == dl and out.raw() == exp, "one-shot digest(%s) of %d bytes: ret=%d" % (alg, n, r), "digest/oneshot/" + alg)
+    # dispatch by name, in both spellings digest_from_name() knows: the object found must be the hash it names
+    fn = l.digest_from_name
+    fn.restype = ctypes.c_void_p
+    for nm in (alg.replace("_", "-"), alg.replace("_", "-").upper()):
+        d2 = fn(nm.encode() + b"\0")
+        ctx.check(bool(d2), "digest_from_name(\"%s\") finds nothing" % nm, "digest/by-name/unknown")
+        if d2:
+            out = Buf(64, fill=0)
+            ol = ctypes.c_size_t(0)
+            r = l.digest(d2, Buf.of(data), n, out, ctypes.byref(ol))
+            ctx.check(r == 1 and out.raw(ol.value) == exp, "digest_from_name(\"%s\") computes %s (%d bytes) over %d bytes, %s is %s" %
+                      (nm, out.raw(ol.value).hex(), ol.value, n, alg, exp.hex()), "digest/by-name/" + alg)
     if alg == "sm3":
         sc = obj("SM3_DIGEST_CTX")
         ctx.check(l.sm3_digest_init(sc, None, 0) == 1, "sm3_digest_init", "sm3_digest/init")
